@@ -112,6 +112,37 @@ def op_set_format(sim: Sim, a) -> str:
     return "ok"
 
 
+# formula texts the library's own parser accepts (no leading "="); structurally different, so each gets its own key
+FORMULAS = ["C3+D3", "C3×D3", "SUM(A1:B2)", "A1&B1", "IF(A1>2,\"x\",B2)", "A1", "SUM(A1:B2)+MAX(C1:C3)", "1+2", "A1+1.5", "$A$1+B$2",
+            "A1<=B1", "A1^2", "LEN(\"abc\")", "ROUND(A1,2)", "-A1"]
+
+
+@op("set_formula")
+def op_set_formula(sim: Sim, a) -> str:
+    """Give an existing value cell a formula through the cell.formula setter. The grid model is unaffected
+    (the cell keeps its value); the formula text is what the deep snapshots of C02/C06 and the validator of C07 see."""
+    ds = sim.pick_doc(a["d"])
+    if ds is None:
+        return "skip"
+    si, ti, tm, table = sim.pick_table(ds, a["s"], a["t"])
+    r, c = a["r"] % tm.nrows, a["c"] % tm.ncols
+    if tm.merge_at(r, c) is not None:
+        return "skip"
+    v = tm.rows[r][c]
+    if isinstance(v, bool) or not isinstance(v, (int, float)):
+        return "skip"
+    if sim.real:
+        with warnings.catch_warnings():
+            warnings.simplefilter("ignore")
+            try:
+                table.cell(r, c).formula = FORMULAS[a.get("k", 0) % len(FORMULAS)]
+            except Exception as e:  # noqa: BLE001
+                sim.probe(f"formula_call_raised_{type(e).__name__}")
+                return "raised_" + type(e).__name__
+        sim.probe("formula_set")
+    return "ok"
+
+
 @op("custom_format")
 def op_custom_format(sim: Sim, a) -> str:
     ds = sim.pick_doc(a["d"])
